@@ -282,7 +282,7 @@ def drv_race(tier, seed, ctx):
                        env=GOENV, capture_output=True, text=True)
     if b.returncode != 0:
         return [], ['race build failed (no verdict from the race detector): ' + b.stderr[-300:]]
-    n = 60 if tier == 'quick' else 1500
+    n = 240 if tier == 'quick' else 3000
     g = subprocess.run([ctx['harness'], 'gen', 'matcher', str(seed * 31 + 5), str(n)], capture_output=True, text=True, env=GOENV)
     cases = [l.split(' => ')[0] for l in g.stdout.splitlines() if l.startswith('matcher conc') or l.startswith('matcher scan')]
     g = subprocess.run([ctx['harness'], 'gen', 'rank', str(seed * 31 + 6), str(n)], capture_output=True, text=True, env=GOENV)
